@@ -313,6 +313,8 @@ def po6(facts, rep):
             elif eng_po.orphan_match(key, PO6_AUDIT, set(facts.bodies) | {'QGramIndex::' + b_.name for b_ in facts.body_list}):
                 k0 = eng_po.orphan_match(key, PO6_AUDIT, set(facts.bodies) | {'QGramIndex::' + b_.name for b_ in facts.body_list})
                 rep.audited(rule, k2, o['where'], 'arithmetic of the removed function %s, now written in its caller: %s' % (k0.split('|')[0], PO6_AUDIT[k0]))
+            elif eng_po.implied(key, PO6_AUDIT, o):
+                rep.audited(rule, k2, o['where'], eng_po.implied(key, PO6_AUDIT, o)[1])
             else:
                 rep.bad(rule, key, o['where'], 'undischarged %s obligation on %s operands: %s' % (o['kind'], o.get('ty', '?'), o['detail']))
     rep.floor(rule, 'obligations', total, 12)
